@@ -48,6 +48,7 @@ class YieldCounter:
         self.n = Lin.sym("n")
         self.assume_n_ge_k = assume_n_ge_k
         self.assumptions: list[str] = []
+        self._quiet_break = 0
         self.hooks: list = []   # extra call models for the environment (e.g. helper inlining for a concrete class)
         self.assume_hooks: list = []
 
@@ -274,6 +275,9 @@ class YieldCounter:
         if isinstance(s, ast.Continue):
             st.skip = True
             return [st]
+        if isinstance(s, ast.Break) and self._quiet_break > 0:
+            st.skip = True   # leaving a loop that neither yields nor counts: no effect on the yield count
+            return [st]
         if isinstance(s, ast.Break):
             st.notes.append("break")
             st.count = Opaque("break in a counted region")
@@ -346,7 +350,13 @@ class YieldCounter:
                                 # a sequence (re)bound in the body: its size after the loop is either the body's or the old one
                                 pass
             # execute body once for size bindings (e.g. npopulation = step.apply(..., k, ...)), keep both outcomes
-            entered = self.block(s.body, [st.copy()])
+            self._quiet_break += 1
+            try:
+                entered = self.block(s.body, [st.copy()])
+            finally:
+                self._quiet_break -= 1
+            for e_ in entered:
+                e_.skip = False
             for e_ in entered:
                 e_.conds.append(f"loop over {norm(it)[:30]} entered")
             skipped = st.copy()
